@@ -191,6 +191,8 @@ def q_r2_keywords(p: Project, schema: Schema, rep: Report):
 
 def _value_matches(p, schema, m, ch, kw, v, params, fn) -> Tuple[bool, str]:
     if isinstance(v, ast.Constant):
+        if isinstance(v.value, bool) and kw in params:
+            return False, f"{m.name}.{kw} is hard-wired to {v.value} on a path although the builder takes a parameter `{kw}`: what the caller asked for is ignored there"
         return True, ""
     if isinstance(v, ast.BoolOp) and isinstance(v.op, ast.Or):
         # `x or None`
